@@ -4,7 +4,9 @@ pg.load / pg.open_jsonl API after every operation.
 
 Mechanism keys are `<fs>/<operation>/<feature>` where the feature is decided
 by the harness: a failing write+read is replayed on a fresh, plainly named
-path of the same file system; if that fails too the feature is 'any-path',
+path of the same file system; if that fails too the mechanism is the operation
+(followed by the class of the greedily minimised value, e.g. `std/save(str-surrogate)`,
+when a single value of the operation fails the same way on a fresh path),
 otherwise it is the class of the path ('prefix-name': the first component
 after '/mem/' starts with a character of the prefix) or the relation of the
 write to the previous content ('overwrite-shorter', 'overwrite-longer',
@@ -132,7 +134,7 @@ def mkdirs(path):
 
 def seq_write(path, recs, append, raw, api='open_jsonl', use_with=True):
   op = Op('raw-seq-' + ('a' if append else 'w') if raw else 'seq-' + ('a' if append else 'w'),
-          path, recs=recs, append=append, raw=raw)
+          path, recs=recs, append=append, raw=raw, api=api)
   mode = 'a' if append else 'w'
   def opener(p, m):
     if raw:
@@ -390,10 +392,82 @@ class World:
       feature = self.feature(op, c, 'write-raises')
       problems.append(('write-raises', self.mech(op, feature),
                        f'{op.show()} raised {type(err).__name__}: {err!s:.300}'))
+      # Whether a write that raised counts as "saved" is left open; what the
+      # path returns afterwards must still be one of the two values.
+      c['persist_failed_write_state_checks'] += 1
+      bad = self.neither_old_nor_new(op, before)
+      if bad:
+        problems.append(('failed-write-clobbers', self.mech(op, feature),
+                         f'{op.show()} raised {type(err).__name__}; afterwards the path holds '
+                         f'neither the previous content nor the new one: {bad}'))
       self.heal(path)
       return problems + self.check_all(op, rng, c, skip=path)
     self.update_model(op)
     return problems + self.check_all(op, rng, c)
+
+  def neither_old_nor_new(self, op, before):
+    """After a write that raised: None when the path is as before the write or
+    as the write would have left it (for a record file: the records before
+    plus any number of the records of the batch), else a description."""
+    path = op.path
+    try:
+      if op.name.endswith(('seq-a', 'seq-w')):
+        old = list(before.items) if before is not None else None
+        base = old if (op.append and old is not None) else []
+        states = [] if old is None else [old]
+        try:
+          new = op.items()
+        except Exception:  # pylint: disable=broad-except
+          new = []
+        states += [base + new[:i] for i in range(len(new) + 1)]
+        if old is None and not self.is_memseq(path) and not pg.io.path_exists(path):
+          return None
+        found = None
+        for items in states:
+          found = self.check_seq(path, SeqEntry(op.raw, items), None)
+          if not found:
+            return None
+        return found[0][1]
+      if before is None:
+        if not pg.io.path_exists(path):
+          return None
+        found = [('', 'the path exists now')]
+      else:
+        found = self.check_file(path, before, True, None)
+        if not found:
+          return None
+      try:
+        new = op.entry()
+      except Exception:  # pylint: disable=broad-except
+        return found[0][1]
+      again = self.check_file(path, new, True, None)
+      return (found[0][1] + '; ' + again[0][1]) if again else None
+    except Exception as e:  # pylint: disable=broad-except
+      return f'{type(e).__name__}: {e!s:.200}'
+
+  def value_kind(self, op, clause):
+    """The class of value (S.kind of the greedily minimised description) that
+    makes `op` show `clause` on a fresh plainly named path; None when the
+    values of the operation do not decide."""
+    if op.name == 'save':
+      descs = [op.d]
+      make = lambda d: save_json(op.path, d, indent=op.indent, method=op.method)
+    elif op.name in ('seq-a', 'seq-w'):
+      descs = list(op.recs)
+      make = lambda d: seq_write(op.path, [d], append=False, raw=False, api=op.api,
+                                 use_with=True)
+    else:
+      return None
+    def fails(d):
+      try:
+        got = self.replay_fails(make(d), None)
+      except Exception:  # pylint: disable=broad-except
+        return False
+      return clause in got or '*' in got
+    for d in descs:
+      if fails(d):
+        return S.kind(S.minimise(d, fails, budget=100))
+    return None
 
   # -- reader handles ---------------------------------------------------------------
   def handles_of(self, path):
@@ -624,6 +698,8 @@ class World:
     fs = 'memseq' if self.is_memseq(op.path) else self.fs
     if feature == 'any-path':
       return f'{fs}/{self.mech_op(op)}'
+    if feature.startswith('any-path('):
+      return f'{fs}/{self.mech_op(op)}{feature[len("any-path"):]}'
     return f'{fs}/{feature}'
 
   # -- feature (differential replay on a fresh plain path) ---------------------------
@@ -635,6 +711,13 @@ class World:
       c['persist_probes'] += 1
       op.probe1 = self.replay_fails(op, None)
     if clause in op.probe1 or '*' in op.probe1:
+      # fails on a fresh path too: is it a class of value that decides?
+      if not hasattr(op, 'vkinds'):
+        op.vkinds = {}
+      if clause not in op.vkinds:
+        op.vkinds[clause] = self.value_kind(op, clause)
+      if op.vkinds[clause]:
+        return 'any-path(' + op.vkinds[clause] + ')'
       return 'any-path'
     if op.before is not None:
       if op.probe2 is None:
